@@ -35,6 +35,7 @@ type Report struct {
 	Floors      map[string]int // rule -> minimum instances expected
 	Notes       []string
 	Internal    []string // unresolved roles / undecided -> fail
+	configs     []string
 }
 
 func NewReport(prop string) *Report {
@@ -64,6 +65,47 @@ func (r *Report) Note(format string, a ...any) { r.Notes = append(r.Notes, fmt.S
 func (r *Report) Unresolved(rule, what string) {
 	r.Add(Obligation{rule, rule + " | unresolved | " + what, "-", what, Violation,
 		"the construct this rule is anchored on could not be resolved in the current tree; the rule cannot say 'held'"})
+}
+
+// ApplyFloors turns a missed vacuity floor into a violation (done per configuration before merging).
+func (r *Report) ApplyFloors() {
+	for rule, min := range r.Floors {
+		if r.RuleCounts[rule] < min {
+			r.Add(Obligation{rule, rule + " | vacuity | instances", "-",
+				fmt.Sprintf("rule enumerated %d instances, fewer than the floor %d confirmed by hand", r.RuleCounts[rule], min),
+				Violation, "a rule that matches (almost) nothing passes vacuously; the population it was written for has disappeared"})
+		}
+	}
+	r.Floors = map[string]int{}
+}
+
+// Merge folds the report of one build configuration into r: obligations are identified by key; when a key occurs
+// in several configurations the worst status wins (violation > info > exception > discharged).
+func (r *Report) Merge(o *Report, config string) {
+	rank := map[string]int{Discharged: 0, Excepted: 1, Info: 2, Violation: 3}
+	idx := map[string]int{}
+	for i, ob := range r.Obligations {
+		idx[ob.Rule+"\x00"+ob.Key] = i
+	}
+	for _, ob := range o.Obligations {
+		k := ob.Rule + "\x00" + ob.Key
+		if i, ok := idx[k]; ok {
+			if rank[ob.Status] > rank[r.Obligations[i].Status] {
+				ob.How = "[" + config + "] " + ob.How
+				r.Obligations[i] = ob
+			}
+			continue
+		}
+		if ob.Status == Violation && len(r.configs) > 0 {
+			ob.How = "[only in " + config + "] " + ob.How
+		}
+		// not recorded in idx: two obligations of one configuration that share a key both stay, as in a single-configuration run
+		r.Add(ob)
+	}
+	for _, n := range o.Notes {
+		r.Notes = append(r.Notes, "["+config+"] "+n)
+	}
+	r.configs = append(r.configs, config)
 }
 
 // Floor declares the minimum number of instances rule must have enumerated.
